@@ -15,8 +15,8 @@
 
   Parameters / inputs (DESIGN §4): `Cfg.crc` is crc32c (uninterpreted in the theorems, table-free bitwise
   implementation in the driver); the outcome of the clock test `now.Sub(writingFileCreatedTs) >=
-  fileRotateInterval` is the `timeRot` input of `put`.  Assumed away (I/O error branches): OpenFile /
-  WriteAt / Seek failures; file names (wall clock with nanoseconds) are strictly increasing.
+  fileRotateInterval` is the `timeRot` input of `put`.  Assumed away (I/O error branches): WriteAt / Seek failures, OpenFile failures other than
+  "the tail file is gone" (`hasFile`/`skipMissing`); file names (wall clock with nanoseconds) are strictly increasing.
   `Cfg.tornEraseOk = false` is the code as it is; `true` models a reader that also accepts the magic left
   by an erase torn after 3 bytes as "deleted" (see Props/C09 `torn_erase_*`).
 -/
@@ -310,6 +310,14 @@ def openNext (s : Shard) (w : WFile) (ws : List WFile) : Shard :=
   { s with waiting := ws, waitingSize := s.waitingSize - w.size, reading := some w.name,
            ofiles := { name := w.name, nextPos := 0, size := w.size, refCount := 1 } :: s.ofiles }
 
+/-- `os.OpenFile(tailFile.name, …)` succeeds iff the file is (still) in the directory -/
+def hasFile (d : List DFile) (name : Nat) : Bool := d.any (fun f => f.name == name)
+
+/-- the waiting file `w` could not be opened (it vanished after the start-up scan): it is dropped from the waiting list and
+    from the accounted sizes (`d.totalFileSize -= tailFile.size`), and the loop goes on with the next one -/
+def skipMissing (s : Shard) (w : WFile) (ws : List WFile) : Shard :=
+  { s with waiting := ws, waitingSize := s.waitingSize - w.size, total := s.total - w.size }
+
 def setNextPos (s : Shard) (name nx : Nat) : Shard :=
   { s with ofiles := mapO s.ofiles name (fun g => { g with nextPos := nx }) }
 
@@ -327,7 +335,9 @@ def readLoop (cfg : Cfg) : Nat → Shard → Shard × ReadRes
     | none =>
       match s.waiting with
       | [] => (s, .none)
-      | w :: ws => readLoop cfg fuel (openNext s w ws)
+      | w :: ws =>
+        if hasFile s.disk w.name then readLoop cfg fuel (openNext s w ws)
+        else readLoop cfg fuel (skipMissing s w ws)
     | some name =>
       match findO s.ofiles name with
       | none => (s, .fuel)
@@ -378,6 +388,12 @@ def tornErase (s : Shard) (id k : Nat) : Shard :=
   | some b => { s with disk := mapDisk s.disk b.file (fun f => writeAt f b.pos ((le 4 magicDeleted).take k)) }
 
 def nthName (s : Shard) (i : Nat) : Option Nat := (s.disk[i]?).map (·.name)
+
+/-- the `i`-th file of the directory vanishes (removed from outside while the cache runs) -/
+def vanish (s : Shard) (i : Nat) : Shard :=
+  match nthName s i with
+  | none => s
+  | some n => { s with disk := s.disk.filter (fun f => f.name != n) }
 
 /-- xor one byte of the `i`-th file -/
 def flip (s : Shard) (i off x : Nat) : Shard :=
